@@ -115,6 +115,10 @@ pub fn exec_op(ctx: &mut ArrCtx, verb: &str, m: &BTreeMap<String, String>) -> St
         "retrieve_chunk_subset" => res_val(es, a.retrieve_chunk_subset_opt(&pnl(&m["c"]), &parse_subset(&m["r"]), &o)),
         "retrieve_array_subset" => res_val(es, a.retrieve_array_subset_opt(&parse_subset(&m["r"]), &o)),
         "keys" => list_keys(ctx),
+        "raw" => {
+            use zarrs::storage::ReadableStorageTraits;
+            match ctx.store.store.get(&a.chunk_key(&pnl(&m["c"]))) { Ok(Some(b)) => format!("raw {}", hex(&b)), Ok(None) => "raw none".into(), Err(_) => "err".into() }
+        }
         "reopen" => {
             // a fresh handle from the stored metadata (written through store_metadata of the current handle)
             if a.store_metadata().is_err() { return "err".into(); }
@@ -301,7 +305,8 @@ fn gen_chain(rng: &mut Rng, dt: &DType, cs: Option<&[u64]>, depth: u32, allow_sh
                 };
                 json.push(format!("{{\"name\":\"sharding_indexed\",\"configuration\":{{\"chunk_shape\":[{}],\"codecs\":{},\"index_codecs\":{},\"index_location\":\"{}\"}}}}",
                     inner.iter().map(|x| x.to_string()).collect::<Vec<_>>().join(","), ij, idx_codecs, loc));
-                desc.push(format!("shard[{};{};{}]", nl(&inner).replace(',', "x"), loc, idesc));
+                let idx_desc = if idx_codecs.contains("crc32c") { "le+crc" } else if idx_codecs.contains("big") { "be" } else { "le" };
+                desc.push(format!("shard[{};{};{};{}]", nl(&inner).replace(',', "x"), loc, idx_desc, idesc));
                 sharded = true;
             } else if dt.numeric && es > 1 && k == 4 {
                 json.push("{\"name\":\"numcodecs.pcodec\",\"configuration\":{}}".into());
